@@ -9,7 +9,7 @@
    is [joinc cs] (names joined with '/'), and cs <> [] excludes the root itself.
    [walk t] = the list of Stat values passed to the callback of fs.Walk(ctx, "", fn), in order. *)
 From Coq Require Import List NArith Bool Sorting.Sorted Sorting.Permutation.
-From FS Require Import Sx Model.Path Model.Stat Model.Tree Model.Walk Proofs.Lex Proofs.PathP Proofs.WalkP Proofs.WalkHL.
+From FS Require Import Sx Model.Path Model.Stat Model.Tree Model.Walk Proofs.Lex Proofs.PathP Proofs.WalkP Proofs.WalkHL Proofs.WalkSD.
 Import ListNotations.
 Open Scope N_scope.
 
@@ -189,6 +189,21 @@ Theorem subdir_walk_hardlinks :
        else if bytes_eqb (joinc cs0) (joinc cs) then [] else sd_name d ++ sep :: joinc cs0).
 Proof. exact subdir_walk_hardlinks_proof. Qed.
 
+(* SubDirFS, walk of a sub-target.  subDirFS.Walk cuts the target at its first separator; for
+   proper sub-roots and a target  name  or  name/rest  whose first component is a well-formed name:
+   if a sub-root is called name, the callbacks are exactly that sub-root's Stat followed by its
+   walk at rest (walk_at: the entry rest and everything below it, walk_at_sub / walk_at_hardlinks),
+   prefixed ([sd_block_at]); no error.  Sub-roots are selected by EQUALITY of the whole component:
+   every other sub-root contributes nothing — also one whose name is a proper string prefix of
+   name (lib vs lib64) or has name as a prefix — and if no sub-root is called name nothing is
+   reported at all. *)
+Theorem subdir_walk_at :
+  forall ds name rest target, sd_wf ds -> wf_name name ->
+  (target = name ++ sep :: rest \/ (target = name /\ rest = [])) ->
+  (forall d, In d ds -> sd_name d = name -> walk_subdirs ds target = Some (sd_block_at d rest, false)) /\
+  ((forall d, In d ds -> sd_name d <> name) -> walk_subdirs ds target = Some ([], false)).
+Proof. exact subdir_walk_at_proof. Qed.
+
 (* The shared view model (Model/Tree.v, used by the other properties through MemFS): the canonical
    listing of a view whose sibling lists are strictly ascending bytewise, with non-empty
    separator-free names, is strictly ascending in protocol path order and has no duplicate path. *)
@@ -215,6 +230,7 @@ Print Assumptions wf_tree_b_reflects.
 Print Assumptions walk_at_sub.
 Print Assumptions walk_at_hardlinks.
 Print Assumptions subdir_walk_hardlinks.
+Print Assumptions subdir_walk_at.
 Print Assumptions subdir_walk_prefixed.
 Print Assumptions view_walk_sorted.
 Print Assumptions sorted_b_reflects.
@@ -309,6 +325,18 @@ Example ex_subdirs :
   | None => False
   end.
 Proof. vm_compute. split; reflexivity. Qed.
+
+(* sub-roots "a" and "a-b" (one name a string prefix of the other), both holding ex_tree: the target
+   "a-b/a" reports a-b and the sub-tree a-b/a only — nothing of sub-root "a"; the target "a-" (a
+   prefix of one name, an extension of the other) reports nothing *)
+Example ex_subdir_at :
+  let ds := [ {| sd_stat := dstat [A]; sd_tree := ex_tree |};
+              {| sd_stat := dstat [A; 45; B]; sd_tree := ex_tree |} ] in
+  option_map (fun x => (map fst (fst x), snd x)) (walk_subdirs ds [A; 45; B; 47; A]) =
+    Some ([ [A; 45; B]; [A; 45; B; 47; A]; [A; 45; B; 47; A; 47; X]; [A; 45; B; 47; A; 47; Y] ], false)
+  /\ walk_subdirs ds [A; 45] = Some ([], false)
+  /\ option_map (fun x => length (fst x)) (walk_subdirs ds [A]) = Some 6%nat.
+Proof. vm_compute. repeat split; reflexivity. Qed.
 
 (* the refutation witness: the model reports m2/f and m2/g as links to m1/f *)
 Example ex_cross_device :
